@@ -24,5 +24,17 @@ CLAIMED["C04"] = dict(
     note="Trusted: Lean kernel, harness/door, ipnet's CIDR parser (parsed CIDRs are model inputs), TOML parsing (toml_edit), "
          "the accept-path step list is a transcription tied only by the TCP probe; QUIC ordering is read from the code.",
 )
+CLAIMED["C11"] = dict(
+    text="Unbounded Lean theorems: the serialised echo verifies under RFC 1071 for every payload up to 65535 bytes, including "
+         "sums that carry twice (checksum_verifies; sum32_exact shows the u32 accumulation of the code never wraps there); the 7.3 "
+         "decoder behind the re-queueing glue yields exactly the 23-byte records of the concatenated stream for every chunking "
+         "(request_decode_segmentation) with all fields faithful (request_fields_faithful); deserialisation, IP-header skipping and "
+         "responded_echo_request never panic; a quoting ICMPv4 error designates the request (v4_error_designates); 7.4 format; "
+         "waiter-table invariants (only the requester is told, swept waiters are forgotten, table bounded by sends). Tied to the code by "
+         "~100k differential cases per run plus an independent RFC 1071 check of what the real encoder emits.",
+    note="Trusted: Lean kernel, harness/door; the kernel computes ICMPv6 checksums; random echo data (ring) is an input. The waiter-table "
+         "model (icmp_forwarder.rs) is tied to the code by reading only - the raw-socket history suite is not built; delivery theorems "
+         "are per matching waiter (clients sharing identifier+sequence with prefix-equal data share a key: recorded limitation).",
+)
 NOT_CLAIMED = {p: "not yet built in this framework (planned, see DESIGN.md section 5)" for p in
-               ["C01", "C02", "C05", "C06", "C07", "C08", "C09", "C10", "C11", "C12", "C13", "C14", "C15", "C16", "C17", "C18", "C19", "C20"]}
+               ["C01", "C02", "C05", "C06", "C07", "C08", "C09", "C10", "C12", "C13", "C14", "C15", "C16", "C17", "C18", "C19", "C20"]}
